@@ -16,6 +16,10 @@ def main():
         sys.exit(2)
     prop = sys.argv[1]
     os.chdir(vlib.VERIF)
+    # `kill -USR1 <pid>` prints the Python stack of a run that seems stuck (diagnosis only)
+    import faulthandler
+    import signal
+    faulthandler.register(signal.SIGUSR1, all_threads=True)
     try:
         mod = importlib.import_module(f"props.{prop.lower()}")
     except BaseException as e:  # noqa: BLE001 - any failure to load the machinery is infrastructure
